@@ -138,43 +138,57 @@ def c09_oracle(schema, cfg, doc, update, real_errors):
                     if ev is False and value is not None and not type_ok(rules, value, lv.base_cfg) and reported:
                         return "type failure but %s error reported at %r" % (op, lv.path + (field,))
                     continue
-                # recount: each definition on its own, with inherited type / allow_unknown
-                valid, per_def = 0, {}
-                for i, d in enumerate(defs):
-                    dd = dict(d)
-                    for inh in ('allow_unknown', 'type'):
-                        if inh not in dd and inh in rules:
-                            dd[inh] = rules[inh]
-                    if 'allow_unknown' not in dd:
-                        dd['allow_unknown'] = lv.allow_unknown
-                    errs = fresh_errors({field: dd}, lv.doc, lv.cfg(allow_unknown=True), update)
-                    if errs:
-                        per_def[i] = errs
-                    else:
-                        valid += 1
-                n = len(defs)
-                fails = {'anyof': valid == 0, 'allof': valid < n, 'noneof': valid > 0, 'oneof': valid != 1}[op]
+                # recount: each definition on its own, with inherited type / allow_unknown -- as the property states it: a validator
+                # with the SAME options, looking at the errors beneath the field only.  The implementation builds the definition's
+                # validator with allow_unknown=True (so that sibling fields pass), which its items / list-schema / valuesrules /
+                # keysrules children inherit: when only the recount under that option agrees, the discrepancy is attributed to it.
+                def recount(as_implemented):
+                    valid, per_def = 0, {}
+                    for i, d in enumerate(defs):
+                        dd = dict(d)
+                        for inh in ('allow_unknown', 'type'):
+                            if inh not in dd and inh in rules:
+                                dd[inh] = rules[inh]
+                        if 'allow_unknown' not in dd:
+                            dd['allow_unknown'] = lv.allow_unknown
+                        if as_implemented:
+                            errs = fresh_errors({field: dd}, lv.doc, lv.cfg(allow_unknown=True), update)
+                        else:
+                            errs = [e for e in fresh_errors({field: dd}, lv.doc, lv.cfg(), update) if tuple(e.document_path)[:1] == (field,)]
+                        if errs:
+                            per_def[i] = errs
+                        else:
+                            valid += 1
+                    n = len(defs)
+                    fails = {'anyof': valid == 0, 'allof': valid < n, 'noneof': valid > 0, 'oneof': valid != 1}[op]
+                    if fails != bool(reported):
+                        return "%s at %r: %d of %d definitions validate individually, error %s" % (
+                            op, lv.path + (field,), valid, n, "reported" if reported else "missing")
+                    if reported:
+                        e = reported[0]
+                        if len(reported) != 1:
+                            return "%d %s errors at %r" % (len(reported), op, lv.path + (field,))
+                        if tuple(e.info[1:3]) != (valid, n):
+                            return "%s at %r carries (valid, total)=%r, recount gives (%d, %d)" % (
+                                op, lv.path + (field,), tuple(e.info[1:3]), valid, n)
+                        de = e.definitions_errors
+                        if set(de.keys()) != set(per_def.keys()):
+                            return "%s at %r: definitions_errors keyed by %r, failing definitions are %r" % (
+                                op, lv.path + (field,), sorted(map(repr, de.keys())), sorted(per_def.keys()))
+                        for i in per_def:
+                            a = sorted((key3(x, len(lv.path)) for x in de[i]), key=repr)
+                            b = sorted((key3(x) for x in per_def[i]), key=repr)
+                            if a != b:
+                                return "%s at %r definition %d: child errors %r != separately validated %r" % (
+                                    op, lv.path + (field,), i, a[:2], b[:2])
+                    return None
                 checked += 1
-                if fails != bool(reported):
-                    return "%s at %r: %d of %d definitions validate individually, error %s" % (
-                        op, lv.path + (field,), valid, n, "reported" if reported else "missing")
-                if reported:
-                    e = reported[0]
-                    if len(reported) != 1:
-                        return "%d %s errors at %r" % (len(reported), op, lv.path + (field,))
-                    if tuple(e.info[1:3]) != (valid, n):
-                        return "%s at %r carries (valid, total)=%r, recount gives (%d, %d)" % (
-                            op, lv.path + (field,), tuple(e.info[1:3]), valid, n)
-                    de = e.definitions_errors
-                    if set(de.keys()) != set(per_def.keys()):
-                        return "%s at %r: definitions_errors keyed by %r, failing definitions are %r" % (
-                            op, lv.path + (field,), sorted(map(repr, de.keys())), sorted(per_def.keys()))
-                    for i in per_def:
-                        a = sorted((key3(x, len(lv.path)) for x in de[i]), key=repr)
-                        b = sorted((key3(x) for x in per_def[i]), key=repr)
-                        if a != b:
-                            return "%s at %r definition %d: child errors %r != separately validated %r" % (
-                                op, lv.path + (field,), i, a[:2], b[:2])
+                d = recount(False)
+                if d:
+                    if recount(True) is None:
+                        return "allow_unknown=True of the definition's validator reaches the containers inside the definition at %r: %s" % (
+                            lv.path + (field,), d)
+                    return d
     return None if checked >= 0 else None
 
 
